@@ -631,7 +631,7 @@ pub fn checks() -> Vec<CheckDef> {
         prop_check(
             "assembled",
             "attacker-assembled constraints: L digit proofs built on the public SignatureProofBuilder<1> over any published digit signature (L, u read from the encodings): all-maximal digits, arbitrary published digits, a signature on d shown for d' (incl. d' >= u), a self-signed digit >= u (proven under either key); main commitment proof linked to the encoded value, encoded+1, 2^63, 2^63+k or -1; oracle: verdict == independent relation evaluation == construction, and no acceptance for a linked value outside [0, 2^63) (catches L or u changes); distinct by (plan, link, digits)",
-            &["assembled/all-maximal-digits/encoded-value/accept", "assembled/published-digits/2^63/reject"],
+            &["assembled/all-maximal-digits/encoded-value/accept", "assembled/signature-claimed-for-other-digit/encoded-value/reject"],
             (200, 8000),
             asm_strategy,
             asm_oracle,
